@@ -275,7 +275,7 @@ def ptycho_stream(ctx):
     plain = [k for k, v in vars(prob).items() if not isinstance(v, torch.nn.Module) and k not in ("_dset", "dset")]
     tmap = {"list": list, "dict": dict, "Tensor": torch.Tensor, "ndarray": np.ndarray, "str": str, "float": float}
     rng = ctx.rng.fork(4242)
-    for j in range(ctx.n(6, 40)):
+    for j in range(ctx.n(12, 48)):
         names = rng.sample(plain, rng.randint(1, 3))
         tname = rng.choice(sorted(tmap)) if rng.chance(0.5) else None
         raw = rng.chance(0.5)
@@ -284,11 +284,20 @@ def ptycho_stream(ctx):
         shutil.rmtree(base, ignore_errors=True)
         os.makedirs(base)
         path = os.path.join(base, "p.zip" if store == "zip" else "pdir")
-        case = {"ptycho": True, "names": names, "type": tname, "save_raw_data": raw, "store": store}
+        # every form the `skip: str | type | Sequence[str | type]` argument accepts
+        form = rng.choice(["list", "tuple", "bare"])
+        if form == "bare":
+            if tname and rng.chance(0.5):
+                names = []
+            else:
+                names, tname = names[:1], None
+        entries = list(names) + ([tmap[tname]] if tname else [])
+        skip_arg = entries[0] if form == "bare" else (tuple(entries) if form == "tuple" else list(entries))
+        case = {"ptycho": True, "names": names, "type": tname, "save_raw_data": raw, "store": store, "form": form}
         ctx.count()
         try:
             with contextlib.redirect_stdout(io.StringIO()):
-                prob.save(path, store=store, skip=list(names) + ([tmap[tname]] if tname else []), save_raw_data=raw, verbose=False)
+                prob.save(path, store=store, skip=skip_arg, save_raw_data=raw, verbose=False)
                 back = serialize.load(path)
         except Exception as e:  # noqa
             ctx.pred_fail(f"ptycho-save-raises:{type(e).__name__}", "Ptychography.save/load with skip raised", case, observed=str(e)[:200], required="ok")
@@ -311,7 +320,8 @@ def ptycho_stream(ctx):
             v = vars(prob)[k]
             if k not in names and not (tname and isinstance(v, tmap[tname])) and k not in have and v is not None:
                 ctx.pred_fail("ptycho-survivor-lost", f"attribute {k} not named in skip is missing", case, observed="absent", required="present")
-        ctx.mark(("ptycho", len(names), tname, raw, store))
+        ctx.mark(("ptycho", len(names), tname, raw, store, form))
+        ctx.dist[f"ptycho:skip-form={form}"] += 1
         ctx.dist[f"ptycho:raw={raw}:{store}"] += 1
 
 
